@@ -49,9 +49,9 @@ def gen(ctx, tier, rng):
     # huge block sizes (the marker loop compares indices through the top byte of a size_t: every block size must behave alike), with
     # zero and non-zero previous buffer contents, capacity exact / one short / generous
     for bs in [(1 << k) + d for k in (16, 20, 23, 24, 25, 26) for d in (-1, 0, 1)] + [16777217, 50000000]:
-        for n in (0, 1, 100, bs - 1, bs, bs + 1):
-            for fill in (0x00, 0xff, 0x5b):
-                for delta in ((0, 1, 2) if fill == 0xff else (1,)):
+        for n in ((0, 100, bs + 1) if tier != "thorough" else (0, 1, 100, bs - 1, bs, bs + 1)):
+            for fill in (0x00, 0xff):
+                for delta in ((0, 1, 2) if (fill == 0xff and n == 100) else (1,)):
                     L.append("pad.big %d %d %d %d" % (n, bs, fill, delta))
     # blocksize 0, and out-of-contract n (n > cap): error / misuse paths
     buf = bytes(range(1, 33))
